@@ -25,6 +25,10 @@ BATCH_NOTE = ("Trusted: Coq kernel + vm_compute; harness (mutation engine, view 
               "encoding/json struct decoding, gzip, the mock CAS, per-entry parser verdicts (suffix data, signed data, delta validity - "
               "C10/C18), absence of Go panics is observed (recover) not proved.")
 
+DOC_NOTE = ("Trusted: Coq kernel + vm_compute; the generator (a separate main package under harness/cmd, written with the model) and "
+            "its canonical-JSON comparison. Modelled not verified: encoding/json decoding into generic values, base58/multibase, "
+            "time formatting (compared per case).")
+
 NOT_APPLICABLE = []
 HOOK_COMMITS = ["339701f", "1083a8c"]
 
@@ -161,6 +165,44 @@ PROPS = {
                       "unchanged. Model tied to TxnProcessor, Observer and DocumentHandler by differential runs with fault injection.",
         "level_note": BATCH_NOTE,
         "technique": "Coq proof (store effect, isolation, intake no-trace) + vm_compute correspondence with fault injection + stamp oracle",
+    },
+    "C17": {
+        "seed": 117, "gentie": 0, "corr": ["Composer"], "coq_dirs": ["Doc", "Json", "Corr/Composer", "Props/C17"],
+        "gens": [{"name": "gen_composer", "pkg": "./cmd/gen_composer"}],
+        "rule": "documents reachable by patch sequences, generated directly, empty and nil; patch lists of length 0-5 over all eight "
+                "actions (ietf-json-patch restricted to top-level add), repeated ids within a patch, present/absent ids, empty lists, "
+                "lists whose k-th patch fails, ill-typed values and sections; every call under recover, input snapshotted before and "
+                "compared after (purity), called twice (determinism); PatchesFromDocument and its round trip through the composer; "
+                "non-trivial / distinct = distinct case terms",
+        "trusted_base": ["modelled, not verified: deepCopy = JSON round trip (identity on the AST); Go heap purity is observed per case, "
+                         "not proved"],
+        "assumptions": ["the ietf-json-patch engine is a parameter of the composer model (C18 models it)"],
+        "level_text": "Theorems over all documents and patches: add-existing replaces in place, add-new appends, remove deletes and ignores "
+                      "absent ids, replace resets; refinement to an independent ordered-map specification; uniqueness of ids preserved; "
+                      "atomicity (failure iff some patch fails on its predecessors' result; composition law); PatchesFromDocument round "
+                      "trip. Purity/determinism of the Go heap are checked per generated call, not proved (partial).",
+        "level_note": DOC_NOTE,
+        "technique": "Coq proof (ordered-map refinement, atomicity, round trip) + vm_compute correspondence on generated documents and "
+                     "patch lists + purity/determinism oracle on every call",
+    },
+    "C19": {
+        "seed": 119, "gentie": 0, "corr": ["Transformer"], "coq_dirs": ["Doc", "Json", "Corr/Transformer", "Props/C19"],
+        "gens": [{"name": "gen_transformer", "pkg": "./cmd/gen_transformer"}],
+        "rule": "internal documents with 0-6 keys over every key type x purpose sets x JWK/base58/multibase material (incl. messy "
+                "ill-typed ones), services with extra members and endpoint shapes, alsoKnownAs; resolution models with and without "
+                "commitments, deactivation, anchor origins of every JSON kind, times, canonical/equivalent references, operation lists "
+                "up to 12; all option combinations (base, method contexts, key contexts, include flags); TransformDocument, "
+                "CreateDocumentMetadata, generic transformer, transformation-info constructors, GetHint, RFC 3339 times at month/leap "
+                "boundaries, base64url; canonical JSON compared; distinct = distinct case terms",
+        "trusted_base": ["modelled, not verified (oracles, per-case facts): base58 / multibase encodings; time.Format compared per case"],
+        "assumptions": ["operation lists with distinct (time, number) (sort.Slice is unstable on ties above 12 elements)"],
+        "level_text": "Theorems for all documents, models and options: each key exactly once as verification method with qualified id, "
+                      "controller and preserved / re-encoded material; relationship sections exactly the keys with that purpose; services "
+                      "projected; alsoKnownAs carried over; no internal publicKey; contexts cover key types; metadata fields equal the "
+                      "model's under the code's exact conditions; RFC 3339 layout and Gregorian calendar arithmetic.",
+        "level_note": DOC_NOTE,
+        "technique": "Coq proof (structural projection theorems, calendar arithmetic) + vm_compute correspondence on generated documents, "
+                     "models and option combinations",
     },
     "C16": {
         "cmd": "c16", "seed": 116, "gentie": 0, "corr": ["Writer"],
